@@ -47,9 +47,10 @@ def usedNames (a : Analysis) : List Str :=
     (c.params.flatMap fun p => customs (tsOfStr p.rustType)) ++ customs (tsOfStr c.ret) ++
     (c.channels.flatMap fun ch => customs (tsOfStr ch.msgType))).eraseDups
   let closed := nested a.structs (a.structs.length * (a.structs.length + 1) + fromCmds.length + 1) fromCmds fromCmds
-  -- event payload types are added directly, *without* their own dependencies (defect K07a of the pinned tree)
+  -- event payload types with their own nested dependencies (`TypeCollector::add_event_types`, fix 445f724)
   let fromEvents := (a.events.flatMap fun e => customs (tsOfStr e.payload)).eraseDups
-  ((closed ++ fromEvents).filter fun n => (findStruct a.structs n).isSome).eraseDups
+  let evClosed := nested a.structs (a.structs.length * (a.structs.length + 1) + fromEvents.length + 1) fromEvents fromEvents
+  ((closed ++ evClosed).filter fun n => (findStruct a.structs n).isSome).eraseDups
 
 /-! ### declarations -/
 inductive DKind | importD | iface | typeAlias | const | func | reexport | comment
@@ -181,7 +182,10 @@ def indexFile (a : Analysis) : List Decl :=
 def zodEnumDecl (cfg : Config) (s : SInfo) : List Decl :=
   [{ kind := .const, name := s.name ++ cl!"Schema", refs := [],
      text := cat [cl!"export const ", s.name, cl!"Schema = z.enum([",
-       joinWith sComma (s.fields.map fun f => ['"'] ++ fieldKey cfg s f ++ ['"']), cl!"]);"] }]
+       joinWith sComma (s.fields.map fun f => ['"'] ++ fieldKey cfg s f ++ ['"']), cl!"]);"] },
+   -- the inferred alias, as for object schemas (fix af54852)
+   { kind := .typeAlias, name := s.name, refs := [s.name ++ cl!"Schema"],
+     text := cat [cl!"export type ", s.name, cl!" = z.infer<typeof ", s.name, cl!"Schema>;"] }]
 
 def schemaRefs (cfg : Config) (t : TS) : List Str := (refsOf cfg t).map (· ++ cl!"Schema")
 
